@@ -19,14 +19,15 @@ LEVEL_TEXT = ('static analysis: (D1) each filter body is interpreted, through it
               'placement of chromosome boundaries; allele-specific and by-arm variants) with squash_region stubbed, reduces exactly the maximal '
               'runs of consecutive rows equal in level, chromosome (arm) and, when present, cn1 / cn2, in order; (D3) squash_region on a symbolic'
               ' 3-row group: first start, last end, probes = sum (or row count), weight = sum, log2 / depth / baf weight-averaged (plain mean '
-              'when the weights sum to 0), cn / cn1 = weighted median of the run, cn2 = cn - cn1, gene = distinct names joined; (D4) do_call '
-              'applies ci and sem before calling copy numbers and the remaining filters after, in list order; the CLI --filter choices are '
-              'exactly the implemented @require_column functions; (D5) at every call of squash_by_groups the level vector is a column of the same'
-              " table or a Series built on the table's index -- a pd.Series(<array>) with a fresh 0..n-1 index is aligned by label against the "
-              'segments and merges the wrong rows on any table whose index is not 0..n-1. Decides the run-length grouping on that scope only '
-              '(longer tables follow the same cumulative-key construction; no induction is attempted).')
+              'when the weights sum to 0; a zero-weight member of a run does not switch the weighting off), cn / cn1 = weighted median of the '
+              'run, cn2 = cn - cn1, gene = distinct names joined; (D4) do_call applies ci and sem before calling copy numbers and the remaining '
+              'filters after, in list order; the CLI --filter choices are exactly the implemented @require_column functions; (D5) ci / sem / '
+              'ampdel / cn interpreted end to end through the real squash_by_groups on literal 6-row tables whose index labels are a permutation:'
+              ' each merges exactly the runs of its own level (a level vector re-wrapped on a fresh 0..n-1 index is aligned by label onto the '
+              'wrong rows). Decides the run-length grouping on that scope only (longer tables follow the same cumulative-key construction; no '
+              'induction is attempted).')
 TECHNIQUE = ('abstract interpretation of the filter bodies over order positions; bounded exhaustive interpretation of the grouping on literal '
-             'tables; closed forms on symbolic groups; dominance; slot-argument (index provenance) agreement')
+             'tables; closed forms on symbolic groups; dominance; index-label alignment hazard on literal tables')
 
 SF = "cnvlib.segfilters"
 
